@@ -60,15 +60,23 @@ def bc_lists(draw, ncomp):
 
 
 @st.composite
-def continuum_cases(draw, kinds=("elastic", "thermal")):
+def continuum_cases(draw, kinds=("elastic", "thermal", "advection")):
     kind = draw(st.sampled_from(list(kinds)))
     dim = draw(st.sampled_from([2, 2, 3]))
-    r = draw(gm.recipes2d(affine_ok=False) if dim == 2 else gm.recipes3d(affine_ok=False))
+    if kind == "advection":
+        # a user weak form with a NON-SYMMETRIC matrix (diffusion + advection), single element group
+        dim = 2
+        r = draw(gm.recipes2d(types=["TRI3", "TRI6", "QUAD4"], affine_ok=False, nmax=4))
+        if r["elemType"] == "QUAD4":
+            r["organised"] = True
+            r["verts"] = r["verts"][:4] if len(r["verts"]) >= 4 else draw(gm.polygons(4, 4))
+    else:
+        r = draw(gm.recipes2d(affine_ok=False) if dim == 2 else gm.recipes3d(affine_ok=False))
     r["orphans"] = draw(st.sampled_from([0, 0, 1, 2]))
     ncomp = dim if kind == "elastic" else 1
     law = draw(gmod.elastic_specs(dim)) if kind == "elastic" else None
     vec = lambda lo, hi, den: [draw(st.integers(lo, hi)) / den for _ in range(ncomp)]  # noqa
-    return dict(kind=kind, recipe=r, law=law, k=draw(st.integers(1, 12)) / 4.0, bcs=draw(bc_lists(ncomp)),
+    return dict(kind=kind, beta=[draw(st.integers(-4, 4)) / 2.0, draw(st.integers(-4, 4)) / 2.0], recipe=r, law=law, k=draw(st.integers(1, 12)) / 4.0, bcs=draw(bc_lists(ncomp)),
                 order=draw(st.integers(0, 999)), body=vec(-4, 4, 4.0), trac=vec(-4, 4, 2.0), point=vec(-4, 4, 2.0),
                 solver=draw(st.sampled_from(SOLVERS)))
 
@@ -95,6 +103,23 @@ def _build_continuum(case):
         mat = gmod.make_elastic(case["law"])
         simu = Simulations.Elastic(mesh, mat)
         unk = ["x", "y", "z"][:dim]
+    elif case["kind"] == "advection":
+        from EasyFEA.FEM import BiLinearForm, Field
+
+        groups = gm.main_groups(mesh)
+        if len(groups) != 1:
+            raise Inconclusive("weak forms live on a single element group")
+        bx, by = case.get("beta", [1.0, 0.5])
+        k = case["k"]
+
+        @BiLinearForm
+        def computeK(u, v):
+            gu = u.grad
+            return k * gu.dot(v.grad) + (bx * gu[..., 0] + by * gu[..., 1]) * v()[..., 0]
+
+        wf = Models.WeakForms(Field(groups[0], 1), computeK=computeK)
+        simu = Simulations.WeakForms(mesh, wf)
+        unk = ["u"]
     else:
         simu = Simulations.Thermal(mesh, Models.Thermal(k=case["k"], c=0.0, thickness=1.0))
         unk = ["t"]
@@ -165,7 +190,12 @@ def check_continuum(case, rec):
     loaded = ordered[ordered.size // 2: ordered.size // 2 + max(3, ordered.size // 4)]
     simu.add_surfLoad(loaded, [float(v) for v in case["trac"]], unk)
     simu.add_neumann(loaded[:2], [float(v) for v in case["point"]], unk)
-    simu.solver = SolverType(case["solver"])
+    solver = case["solver"]
+    if case["kind"] == "advection" and solver == "cg":
+        solver = "bicg"  # conjugate gradients is only defined for symmetric positive definite systems
+    case = dict(case, solver=solver)
+    sig["solver"] = solver
+    simu.solver = SolverType(solver)
     with warnings.catch_warnings(record=True) as wlist:
         warnings.simplefilter("always")
         u = np.asarray(simu.Solve(), float).ravel()
